@@ -33,6 +33,7 @@ class Oracle:
         self.grid = None         # int or callable(call_index) -> int : size of the aligned grid for random()
         self.attached = False
         self._saved = None
+        self.zero_draws = 0      # seeded-grid mode: 1 in `zero_draws` uniform draws is exactly 0.0
 
     # -- installation -----------------------------------------------------
     def _install(self):
@@ -64,6 +65,9 @@ class Oracle:
             v = self._rng._randbelow(n) if kind == "b" else None
             if kind == "r":
                 if self.grid:                     # seeded-grid: a uniformly chosen point of the aligned grid
+                    if self.zero_draws and self._rng._randbelow(self.zero_draws) == 0:
+                        self.trail.append(["r", self.grid, -1])     # the boundary value 0.0 (random() lies in [0, 1))
+                        return 0.0
                     j = self._rng._randbelow(self.grid)
                     self.trail.append(["r", self.grid, j])
                     return (2 * j + 1) / (2.0 * self.grid)
